@@ -9,6 +9,12 @@ ASSUMPTIONS = ["reference: harness/ref.py (plain Python ints: //, %, exact /, <<
                "programs that use the same secret register twice in bit-splitting operations (>>, &, |, ^, ~, to_bits, check_positive, secret "
                "exponent / shift count), the first use inside a guarded region (dead, live) or outside any, the operand inside, on the boundary "
                "of and outside [0, 2^bitlength); registers computed inside a dead region are not specified, everything after it is",
+               "augmented assignment (`t = a; t += x` and -=, *=, //=, %=, /=, &=, |=, ^=, <<=, >>=, **=; instruction `iop`) on a second reference of "
+               "a secret int / boolean followed by reads of the original: the reference treats values as immutable",
+               "powers and shifts with a secret exponent whose exact result lies around the field size (base^e between p/8 and 8p for bases "
+               "2, 3, 5, 6, 7, 10, -2, -3; bitlength just wide enough for the exponent): a result in [p/2, p) is an ordinary Python integer and "
+               "must come back as such; a congruent value where Python's value is itself below p is classified apart from the recorded "
+               "reduction of values outside [0, p)",
                "totality is checked on operands inside the documented domain: all operand values, results and comparison differences "
                "satisfy |v| < 2^(bitlength-1); divisors non-zero; exact divisibility for '/'; bitwise/shift operands non-negative, "
                "shift counts and exponents below the bitlength"]
@@ -26,6 +32,8 @@ def in_domain(case, R, i, regs):
     """documented domain of instruction i given the reference values R (list of tagged values) and the
     implementation's registers (for the actual operand kinds)"""
     ins = case.instrs[i].split(); bl = case.cfg["bl"]
+    if ins[0] == "iop":
+        ins = ["bin"] + ins[1:]
     if ins[0] not in ("bin", "un"):
         return False
     rs = [int(t[1:]) for t in ins[2:]]
@@ -84,12 +92,14 @@ def explore(ctx, extended=False, focus=None):
                "or raised; distinct = (operator, kinds, bitlength, error class)")
     n = ctx.n(5000, 100000) * (4 if extended else 1)
     mix = [(8, lambda rnd, cid, p: progs.op_case(rnd, cid, "valid", INT_OPS, KINDS, p=p)), (4, progs.edge_case), (2, progs.unop_case),
-           (1, progs.ite_case), (2, progs.chain_case), (2, progs.reuse_case), (1, lambda rnd, cid, p: progs.method_case(rnd, cid, p, ["if_else", "val", "check_zero", "check_nonzero", "to_bits_rt"]))]
+           (1, progs.ite_case), (2, progs.chain_case), (2, progs.reuse_case), (2, progs.inplace_case), (1, progs.fieldsize_pow_case), (1, lambda rnd, cid, p: progs.method_case(rnd, cid, p, ["if_else", "val", "check_zero", "check_nonzero", "to_bits_rt"]))]
     cases = corpus_cases("C05") + progs.generate(ctx.rnd, n, "c05x" if extended else "c05_", mix=mix)
     cases = [c for c in cases if c.cfg["ign"] == 0]
     for r in execute_all(cases):
         account(ex, r)
         correspond(ex, r, LEVELS)
+        if augmented_assignment_mutations(ex, r):
+            continue        # the registers no longer hold what the reference (immutable values) has
         R = ref.Ref(r.case.cfg)
         R.run([t.split() for t in r.case.instrs])
         deviated = False
@@ -103,7 +113,10 @@ def explore(ctx, extended=False, focus=None):
                     break
                 try:
                     gv = ref.parse_val(got)[0]
-                    sig["detail"] = "congruent-mod-p" if (R.regs[i][0] == "I" and gv[0] in "ILB" and (gv[1] - R.regs[i][1]) % r.case.cfg["p"] == 0) else "different"
+                    cong = R.regs[i][0] == "I" and gv[0] in "ILB" and (gv[1] - R.regs[i][1]) % r.case.cfg["p"] == 0
+                    # a Python value outside [0, p) that comes back reduced is one thing (the recorded finding on secret exponents); a
+                    # Python value that IS a canonical field element and comes back as another representative is another
+                    sig["detail"] = "different" if not cong else "congruent-mod-p" if not 0 <= R.regs[i][1] < r.case.cfg["p"] else "congruent-mod-p:python-value-is-below-p"
                 except Exception:
                     sig["detail"] = "different"
                 ex.violations.append(Violation(sig, f"r{i} ({r.case.instrs[i]}): {d}; plain Python semantics differ",
@@ -112,7 +125,7 @@ def explore(ctx, extended=False, focus=None):
             if R.regs[i][0] == "RAISE" and R.kinds[i] == "?" and not got.startswith("N"):
                 # plain Python raises here (division by zero, inexact '/', negative shift/exponent): a value was returned
                 ins = r.case.instrs[i].split()
-                if ins[0] in ("bin", "un") or ins[:2] == ["call", "to_bits"]:
+                if ins[0] in ("bin", "un", "iop") or ins[:2] == ["call", "to_bits"]:
                     sig = instr_sig(r.case, r.regs, i); sig["dev"] = "value-where-python-raises"
                     ex.violations.append(Violation(sig, f"r{i} ({r.case.instrs[i]}) returned {got[:60]} where plain Python raises / the result is undefined",
                                                    {"case": r.case.line(), "register": i}))
@@ -125,7 +138,7 @@ def explore(ctx, extended=False, focus=None):
             if in_domain(r.case, R, i, r.regs):
                 sig = instr_sig(r.case, r.regs, i); sig["dev"] = "raises-in-domain"; sig["error"] = r.errcls
                 ins = r.case.instrs[i].split()
-                if ins[0] == "bin" and ins[1] in ("floordiv", "mod", "divmod"):
+                if ins[0] in ("bin", "iop") and ins[1] in ("floordiv", "mod", "divmod"):
                     sig["detail"] = "neg-divisor" if R.regs[int(ins[3][1:])][1] < 0 else "pos-divisor"
                 ex.violations.append(Violation(sig, f"{r.case.instrs[i]} raises {r.errcls} on operands inside the documented domain",
                                                {"case": r.case.line(), "instruction": i}))
